@@ -3,7 +3,7 @@
 #   demo passes on a clean copy of /repo HEAD, fails with the change; then run the given checks (default: <ID>) on it.
 # Copies the artefacts to /verif/seeded/<ID>-<i>/ . Scratch copies live under /tmp and are removed.
 ID="$1"; I="$2"; shift 2; CHECKS="${*:-$ID}"
-SRC=/tmp/seed/$ID.out
+SRC=${SEED_SRC:-/tmp/seed/$ID.out}
 V="$(cd "$(dirname "$0")/.." && pwd)"
 D=$(mktemp -d /tmp/seedv.XXXXXX); trap 'rm -rf "$D"' EXIT
 mkdir -p "$D/clean" "$D/mut"
@@ -13,15 +13,16 @@ export OMP_NUM_THREADS=1
 (cd "$D" && PYTHONPATH="$D/clean" timeout 900 /venv/bin/python -B "$SRC/demo$I.py" >"$D/clean.out" 2>&1); RC_CLEAN=$?
 (cd "$D" && PYTHONPATH="$D/mut" timeout 900 /venv/bin/python -B "$SRC/demo$I.py" >"$D/mut.out" 2>&1); RC_MUT=$?
 echo "demo: clean exit=$RC_CLEAN ($(tail -1 $D/clean.out | cut -c1-80)) | changed exit=$RC_MUT ($(tail -1 $D/mut.out | cut -c1-80))"
-OUT="$V/seeded/$ID-$I"; mkdir -p "$OUT"
+OUT="$V/seeded/${SEED_NAME:-$ID-$I}"; mkdir -p "$OUT"
 cp "$SRC/change$I.diff" "$OUT/patch.diff"; cp "$SRC/demo$I.py" "$OUT/demo.py"; cp "$SRC/meta$I.json" "$OUT/agent_meta.json"
 RES=""
 for C in $CHECKS; do
   (cd "$V" && PWV_REPO="$D/mut" ./check "$C" --tier quick --no-evidence > "$D/check.out" 2>&1); RC=$?
+  if [ $RC -eq 1 ] && ! grep -q "^VIOLATION property=$C " "$D/check.out"; then RC=9; fi
   B=$(grep -m1 "violation bucket" "$D/check.out" | cut -c1-200)
   echo "check $C: exit=$RC $B"
   RES="$RES $C:exit$RC"
   cp "$D/check.out" "$OUT/check_$C.out"
 done
-echo "$ID-$I demo_clean=$RC_CLEAN demo_changed=$RC_MUT checks:$RES" > "$OUT/verify.txt"
+echo "${SEED_NAME:-$ID-$I} demo_clean=$RC_CLEAN demo_changed=$RC_MUT checks:$RES" > "$OUT/verify.txt"
 rm -rf "$V/replays"
